@@ -122,13 +122,9 @@ func (x *exec) sendCache(st *Step) {
 		wg.Add(1)
 		go func(p int) {
 			defer wg.Done()
-			for _, i := range perPeer[p] {
-				s := st.Sends[i]
-				// Every peer goroutine touches the cache only at instants of its own
-				// residue class (mod 16 ms): no two are ever runnable at one moment
-				// of simulated time, so the order of cache operations is the plan's.
+			// align sleeps until the first instant >= target of this peer's residue class
+			align := func(target time.Duration) {
 				now := time.Since(start)
-				target := time.Duration(s.SlotMs) * time.Millisecond
 				if target < now {
 					target = now
 				}
@@ -139,7 +135,16 @@ func (x *exec) sendCache(st *Step) {
 				for ms%16 != int64(p) {
 					ms++
 				}
-				time.Sleep(time.Duration(ms)*time.Millisecond - now)
+				if d := time.Duration(ms)*time.Millisecond - now; d > 0 {
+					time.Sleep(d)
+				}
+			}
+			for _, i := range perPeer[p] {
+				s := st.Sends[i]
+				// Every peer goroutine touches the cache only at instants of its own
+				// residue class (mod 16 ms): no two are ever runnable at one moment
+				// of simulated time, so the order of cache operations is the plan's.
+				align(time.Duration(s.SlotMs) * time.Millisecond)
 				rec := &sendRec{at: time.Since(start), peer: p, idx: i, s: s}
 				recs[i] = rec
 				b := s.Blk % nb
@@ -167,6 +172,7 @@ func (x *exec) sendCache(st *Step) {
 				}()
 				rec.written = conn.written
 				rec.want = frameOf(m.CMD(), refOf(b, s.Confirm))
+				align(0) // a slow write returns at any instant: look at the cache at one of our own
 				hq, cq, hs, bl := p2p.VerifSendCacheSizes()
 				rec.sizes = [4]int{hq, cq, hs, bl}
 			}
